@@ -1263,7 +1263,11 @@ void Interpreter::handle_import_statement(const ASTNode *node) {
     std::string file_path = module_path;
 
     // 既に.cbが含まれている場合はそのまま使用
-    if (file_path.find(".cb") != std::string::npos) {
+    // (only a real file path such as ../utils/helper.cb; a dotted module path
+    // with a component like "cbits" merely contains ".cb")
+    if (file_path.size() > 3 &&
+        file_path.compare(file_path.size() - 3, 3, ".cb") == 0 &&
+        file_path.find('/') != std::string::npos) {
         // そのまま使用
     }
     // ドット記法の場合、パスに変換
